@@ -46,6 +46,11 @@ CHECKS = {
         text="Bounded exhaustive input-space exploration with an oracle on the outcome class: Ok, Err(diagnostic) or deliberate diagnostic panic are fine; unreachable!/unimplemented!/unwrap/indexing/overflow panics, panics inside syn/quote/proc-macro2, process aborts and calls over the watchdog are violations. The spaces are index-addressable so a crash is attributed to one input.",
         note="Trusted: the panic-site classifier (reads the source line at the reported location); proc-macro2 fallback mode behaves like the compiler's token API for these inputs. Growth: exponent <= 2.7 over the last three doublings, no call > 60 s; small inputs: no call > 2 s.",
         design_ref="DESIGN.md §3 C18", engine="inproc"),
+    "C16": dict(
+        technique="bounded exhaustive enumeration of comma-separated expression lists (66 expression forms closed one level under 8 contexts; lists up to length 2 with every alias subset and trailing comma, length 3 in thorough) run through the real argument splitter in-process and through real Display expansions (sentinel/alias probes, verbatim re-emission), compared with syn's full Expr parser, which is itself bound to rustc's `$e:expr` parser on every alias-free list",
+        text="Every list in the bounded space is split by the real code and by the reference grammar; disagreement in count, tokens, identifier classification, positional indices seen by the derive, alias recognition or verbatim re-emission is a violation. Two root-cause classes are recorded as known findings with predicates decided on the reference parse only.",
+        note="Trusted: syn::Expr(full) as the expression grammar, cross-checked against rustc for all alias-free lists of the quick space; the class predicates for the two known findings. Expressions outside the alphabet are not explored.",
+        design_ref="DESIGN.md §3 C16", engine="inproc+compile"),
 }
 
 PENDING = ["C01", "C02", "C03", "C04", "C05", "C06", "C07", "C08", "C09", "C10", "C11", "C13", "C14", "C15", "C16",
